@@ -264,7 +264,15 @@ fn run_history<T: H>(name: &str, ops: &[Op]) -> Ran {
                 Op::Clone(k) => {
                     touched = tbl.len();
                     if let Some(Some(x)) = tbl.get(*k) {
-                        let c = x.clone();
+                        // Clone::clone, or Clone::clone_from into an object that has a past of its own
+                        let c = if (opi + *k) % 3 == 1 {
+                            let mut d = T::default();
+                            Digest::update(&mut d, &[0xa7u8; 300][..]);
+                            d.clone_from(x);
+                            d
+                        } else {
+                            x.clone()
+                        };
                         if !same_obs(&c.obs(), &x.obs()) {
                             match differs_behaviourally(&c, x) {
                                 Some(n) => failures.push(format!("{}: op {}: clone of slot {} and its origin, both continued with the same {} bytes, return different digests", name, opi, k, n)),
